@@ -307,7 +307,10 @@ def gen_plan(run_seed: int, k: int, tier: str) -> dict:
                 ops.append({"op": "flood", "t": t, "rule": rule, "text": text[:12], "n": rng.choice((40, 150, 300))})
             else:
                 ops.append(parse_op(rng.choice(avail)))
-                if rng.random() < 0.2:
+                # (never a sibling of an overflow input: cut somewhere in the middle it needs
+                # about as many frames as the interpreter has, and whether that overflows
+                # depends on how deep the caller already is -- not a property of the library)
+                if rng.random() < 0.2 and not ops[-1].get("overflow"):
                     ops.append(sibling_of(ops[-1]))
         clients.append(ops)
     # every multi-client run shares at least one object between two clients
